@@ -223,6 +223,7 @@ func init() {
 			out = append(out, Instance{Scenario: "c13_shutdown", Params: mustJSON(ShutdownParams{Case: "slowobserve", Checkpoint: "auto", Mitigation: true, Membership: "static", MaxPoint: 24}), Bound: 0, Shards: 2, Note: "the persistence polls (ObserveVb) of rollback mitigation answered late or never while the stream is being closed: the late completion blocks nobody"})
 			out = append(out, Instance{Scenario: "c10_cb", Params: mustJSON(CBParams{Initial: 2, Event: "ghost", Perms: 1}), Bound: 0, Shards: 2, Note: "monitor rounds with a listed instance whose document does not exist (KEY_ENOENT answers)"})
 			out = append(out, Instance{Scenario: "c10_cb", Params: mustJSON(CBParams{Initial: 2, Event: "die", Perms: 1}), Bound: 0, Shards: 2, Note: "monitor rounds while an instance's document expires"})
+			out = append(out, Instance{Scenario: "c20_saveretry", Params: mustJSON(struct{}{}), Bound: 0, Shards: 2, Note: "a save with unconfirmed writes (every behaviour per vBucket), then the same positions saved again against a healthy server: success means the store holds them"})
 			return out
 		},
 	})
@@ -558,4 +559,74 @@ func seqMain() {
 	vrt.Sleep(61 * time.Second)
 	vrt.Quiesce()
 	vrt.SetOutcome(fmt.Sprintf("%s err1=%v err2=%v", desc, err1 != nil, err2 != nil))
+}
+
+// c20_saveretry: a checkpoint save whose writes the server did not confirm (error status, no reply, reply after
+// the deadline, connection drop - per vBucket) is followed by a second save of the SAME positions against a
+// healthy server (an idle vBucket, a retried Commit(), the save before a shutdown). A save that reports success
+// has had every position confirmed by the server at some point: afterwards the store holds it.
+func init() {
+	scenarios["c20_saveretry"] = func(raw json.RawMessage) *vrt.Scenario {
+		return &vrt.Scenario{Name: "c20_saveretry", FreeChoices: true, MaxSteps: 100000, NoTimerAlt: true, Main: func() {
+			resetGlobals()
+			o := EnvOpts{Vbs: 2, Nodes: 2}
+			c := NewCluster(&o)
+			o.defaults()
+			gocbcore.SimInstall(c)
+			cfg := o.config()
+			cfg.Checkpoint.Timeout = 5 * time.Second
+			client := couchbase.NewClient(cfg)
+			if err := client.Connect(); err != nil {
+				panic(err)
+			}
+			meta := couchbase.NewCBMetadata(client, cfg)
+			doc := func(s uint64) *models.CheckpointDocument {
+				d := models.NewEmptyCheckpointDocument("u")
+				d.Checkpoint.SeqNo = s
+				return d
+			}
+			state := func() map[uint16]*models.CheckpointDocument {
+				return map[uint16]*models.CheckpointDocument{0: doc(3), 1: doc(4)}
+			}
+			dirty := func() map[uint16]bool { return map[uint16]bool{0: true, 1: true} }
+			n0 := len(c.Requests)
+			served := 0
+			var chosen []string
+			c.Fault = func(r *gocbcore.SimRequest) gocbcore.SimAnswer {
+				if r.ID <= n0 {
+					return gocbcore.SimAnswer{}
+				}
+				served++
+				if served > 2 {
+					return gocbcore.SimAnswer{}
+				}
+				b := behaviours[vrt.Choose(len(behaviours), true, "behaviour")]
+				chosen = append(chosen, fmt.Sprintf("%s(vb%d):%s", r.Kind, r.Vb, b.name))
+				return b.ans(cfg.Checkpoint.Timeout)
+			}
+			vrt.Window(true)
+			first := meta.Save(state(), dirty(), "u")
+			c.Fault = nil
+			vrt.Sleep(time.Second)
+			second := meta.Save(state(), dirty(), "u")
+			vrt.Window(false)
+			vrt.Sleep(12 * time.Second)
+			vrt.Quiesce()
+			desc := fmt.Sprintf("first save %v -> %v; second save of the same positions, healthy server -> %v", chosen, first, second)
+			for vb, want := range map[uint16]uint64{0: 3, 1: 4} {
+				d, ok := StoredDoc(c, srcBucket, o.Group, vb)
+				var got uint64
+				if ok && d.Checkpoint != nil {
+					got = d.Checkpoint.SeqNo
+				}
+				if second == nil && got != want {
+					vrt.Failf("%s: the second save reported success, the store holds %d for vb%d (want %d): success for a write the server never confirmed", desc, got, vb, want)
+				}
+			}
+			if second != nil {
+				vrt.Failf("%s: the second save failed against a healthy server", desc)
+			}
+			vrt.SetOutcome(desc)
+		}}
+	}
 }
